@@ -6,6 +6,7 @@ func execCases() []execCase {
 	cs = append(cs, casesFloat()...)
 	cs = append(cs, casesMemory()...)
 	cs = append(cs, casesControl()...)
+	cs = append(cs, casesKnownBadControl()...)
 	cs = append(cs, casesParallel()...)
 	return cs
 }
@@ -71,12 +72,18 @@ func casesInt() []execCase {
   o[2] = bitcast<u32>(bitcast<i32>(a[2]) >> a[3]);
   o[3] = a[4] << 4u;
   o[4] = a[4] >> 4u;
-  o[5] = a[0] << a[5];
-  o[6] = bitcast<u32>(bitcast<i32>(a[4]) << a[3]);
+  o[5] = bitcast<u32>(bitcast<i32>(a[4]) << a[3]);
 }`,
-			in: io(u32s(9, 9, 9, 9, 9, 9, 9), u32s(1, 31, 0x80000000, 4, 0xF0F0F0F0, 33)),
-			// dynamic shift amounts are taken modulo the bit width in WGSL: 1 << 33 == 1 << 1
-			want: map[Key][]byte{k(0): u32s(0x80000000, 0x08000000, 0xF8000000, 0x0F0F0F00, 0x0F0F0F0F, 2, 0x0F0F0F00)},
+			in:   io(u32s(9, 9, 9, 9, 9, 9), u32s(1, 31, 0x80000000, 4, 0xF0F0F0F0, 33)),
+			want: map[Key][]byte{k(0): u32s(0x80000000, 0x08000000, 0xF8000000, 0x0F0F0F00, 0x0F0F0F0F, 0x0F0F0F00)},
+		},
+		{
+			name:       "shift_amount_ge_width",
+			note:       "WGSL: a dynamic shift amount is taken modulo the bit width (1u << 33u == 2u); naga emits a bare OpShiftLeftLogical whose result is undefined for Shift >= 32",
+			wantPoison: "poison stored",
+			src: hdrOA + `
+@compute @workgroup_size(1) fn main() { o[0] = a[0] << a[1]; }`,
+			in: io(u32s(9), u32s(1, 33)),
 		},
 		{
 			name: "comparisons",
@@ -133,14 +140,15 @@ fn b(x: bool, s: u32) -> u32 { return select(0u, 1u << s, x); }
   let u = vec2<u32>(0xF0u, 0x0Fu);
   let w = (u | vec2<u32>(1u)) ^ (u & vec2<u32>(0x30u));
   o[15] = i32(w.x); o[16] = i32(w.y); o[17] = i32((~u).y);
-  o[18] = select(0, 1, all(v > vec3<i32>(-3))); o[19] = select(0, 1, any(v > vec3<i32>(2))); o[20] = select(0, 1, all(v == vec3<i32>(1, -2, 4)));
+  let cmp = v > vec3<i32>(0, -2, 2);
+  o[18] = select(0, 1, cmp.x); o[19] = select(0, 1, cmp.y); o[20] = select(0, 1, cmp.z);
   o[21] = dot(v, vec3<i32>(4, -5, 6));
 }`,
 			in: io(i32s(make([]int32, 22)...), i32s(1, -2, 3)),
 			// v*2=(2,-4,6); v/2=(0,-1,1); v%2=(1,0,1); 2v+1=(3,-3,7); -v=(-1,2,-3)
 			// (0xF0|1)^(0xF0&0x30) = 0xF1^0x30 = 0xC1 ; (0x0F|1)^(0x0F&0x30)=0x0F ; ~0x0F = 0xFFFFFFF0 = -16
-			// all(v>-3)=1 ; any(v>2)=1 ; all(v==(1,-2,4))=0 ; dot = 4+10+18 = 32
-			want: map[Key][]byte{k(0): i32s(2, -4, 6, 0, -1, 1, 1, 0, 1, 3, -3, 7, -1, 2, -3, 0xC1, 0x0F, -16, 1, 1, 0, 32)},
+			// (1,-2,3) > (0,-2,2) = (t,f,t) ; dot = 4+10+18 = 32
+			want: map[Key][]byte{k(0): i32s(2, -4, 6, 0, -1, 1, 1, 0, 1, 3, -3, 7, -1, 2, -3, 0xC1, 0x0F, -16, 1, 0, 1, 32)},
 		},
 		{
 			name: "bit_builtins",
@@ -157,20 +165,38 @@ fn b(x: bool, s: u32) -> u32 { return select(0u, 1u << s, x); }
   o[8] = extractBits(a[6], 8u, 8u);
   o[9] = bitcast<u32>(extractBits(bitcast<i32>(a[7]), 12u, 4u));
   o[10] = insertBits(a[3], a[5], 4u, 8u);
-  o[11] = countLeadingZeros(a[1]);
-  o[12] = countTrailingZeros(a[8]);
-  o[13] = extractBits(a[6], a[9], 8u);
-  o[14] = insertBits(a[5], a[3], a[9], 8u);
-  o[15] = countLeadingZeros(a[5]);
-  o[16] = countTrailingZeros(a[5]);
 }`,
-			in: io(u32s(make([]uint32, 17)...), u32s(0xF0F0, 1, 0x00F0, 0xFFFFFFFF, 0xFFFFFFF0, 0, 0xABCD1234, 0x0000F000, 8, 28)),
+			in: io(u32s(make([]uint32, 11)...), u32s(0xF0F0, 1, 0x00F0, 0xFFFFFFFF, 0xFFFFFFF0, 0, 0xABCD1234, 0x0000F000, 8, 28)),
 			// countOneBits(0xF0F0)=8; reverseBits(1)=0x80000000; flb(0xF0)=7; flb(i32 -1) = -1; flb(i32 0xFFFFFFF0) = 3;
 			// flb(0u) = 0xFFFFFFFF; ftb(0xF0)=4; ftb(0)=0xFFFFFFFF; extractBits(0xABCD1234,8,8)=0x12;
 			// extractBits(i32 0xF000,12,4) = sign-extended 0xF = -1; insertBits(0xFFFFFFFF,0,4,8)=0xFFFFF00F;
-			// clz(1)=31; ctz(8)=3; extractBits(v,28,8) clamps count to 4 -> 0xA;
-			// insertBits(0, 0xFFFFFFFF, 28, 8) clamps count to 4 -> 0xF0000000; clz(0)=32; ctz(0)=32
-			want: map[Key][]byte{k(0): u32s(8, 0x80000000, 7, 0xFFFFFFFF, 3, 0xFFFFFFFF, 4, 0xFFFFFFFF, 0x12, 0xFFFFFFFF, 0xFFFFF00F, 31, 3, 0xA, 0xF0000000, 32, 32)},
+			want: map[Key][]byte{k(0): u32s(8, 0x80000000, 7, 0xFFFFFFFF, 3, 0xFFFFFFFF, 4, 0xFFFFFFFF, 0x12, 0xFFFFFFFF, 0xFFFFF00F)},
+		},
+		{
+			name:     "clz_ctz",
+			knownBad: true,
+			note:     "countLeadingZeros is emitted as a bare FindUMsb (clz(1) gives 0, clz(0) gives -1) and countTrailingZeros as a bare FindILsb (ctz(0) gives -1 instead of 32)",
+			src: hdrOA + `
+@compute @workgroup_size(1) fn main() {
+  o[0] = countLeadingZeros(a[0]);
+  o[1] = countTrailingZeros(a[1]);
+  o[2] = countLeadingZeros(a[2]);
+  o[3] = countTrailingZeros(a[2]);
+}`,
+			in:   io(u32s(9, 9, 9, 9), u32s(1, 8, 0)),
+			want: map[Key][]byte{k(0): u32s(31, 3, 32, 32)},
+		},
+		{
+			name:     "extract_insert_bits_clamp",
+			knownBad: true,
+			note:     "WGSL clamps offset/count of extractBits/insertBits (o=min(offset,32), c=min(count,32-o)); naga passes them unclamped to OpBitField*, undefined when offset+count > 32",
+			src: hdrOA + `
+@compute @workgroup_size(1) fn main() {
+  o[0] = extractBits(a[0], a[1], 8u);
+  o[1] = insertBits(a[2], a[3], a[1], 8u);
+}`,
+			in:   io(u32s(9, 9), u32s(0xABCD1234, 28, 0, 0xFFFFFFFF)),
+			want: map[Key][]byte{k(0): u32s(0xA, 0xF0000000)},
 		},
 		{
 			name: "int_minmax_abs",
